@@ -78,6 +78,13 @@ var specs = map[string]*propSpec{
 		guard{"alloc.c06.must_fail_free", 1000, "failing-Free classes must be exercised"}, guard{"alloc.op.free.below-pool", 200, "below-pool class"}),
 	"C07": allocSpec("Non-trivial (C07) = history containing a hinted allocation on a free block; distinct by (pool, seed).",
 		guard{"alloc.c07.hinted_free_block", 1000, "hints naming a free block"}),
+	"C01": {
+		level: "exploration",
+		rule: "each case draws a DHCPv4 and/or DHCPv6 chain over all built-in plugins (any subset, any order, arguments from each plugin's accepted grammar; half of the cases dual-stack in one process), a listener bound to ve0/vf0 or unbound, and a history of 500-700 datagrams mixing stateful client scripts (6 DHCPv4 clients incl. hlen 0, 5 and 16; 4 DHCPv6 clients with IA_PD hints of length 0/64/72/128/200, IA_NA, relayed with client-link-layer option), retransmissions, grammar-generated well-formed and hostile datagrams, mutations (bit/byte flips, truncation, length +-1, duplication, splice, trailers), the empty datagram and 65507-byte datagrams; then one canary request per protocol. It runs in a fresh server process inside the private network namespace (link-level replies are real frames). Oracle: process alive, every datagram's handling returned (a watchdog expiry is a violation only if the goroutine dump shows a handler parked on a lock), canary handled, at most one reply (UDP captures + sniffed frames) per datagram. Non-trivial = history in which the chain produced at least one reply; distinct by (seed, chains)",
+		assumptions: assume("'never blocks forever' is observed as 'returned within a 150 s watchdog for the whole history, or no lock-parked handler in the dump'", "an unbound listener always gets a non-zero receive ifindex, as the kernel delivers once IP_PKTINFO is on"),
+		runs:        []runSpec{{engine: "hostile", netns: true, qBatches: 16, qCases: 3, tBatches: 64, tCases: 10, stall: 6 * time.Minute}},
+		guards:      []guard{{"hostile.replies", 2000, "replies produced"}, {"hostile.canaries_returned", 40, "canaries"}, {"hostile.plugin.prefix", 5, "prefix in chains"}, {"hostile.plugin.range", 5, "range in chains"}, {"hostile.plugin.file", 5, "file in chains"}, {"hostile.chains_dual_stack", 10, "dual-stack chains"}},
+	},
 	"C02": {
 		level: "exploration",
 		rule: "each history fixes a range (2..256 addresses, also 4097 in the thorough tier; ranges ending at 255.255.255.255 and starting at x.x.x.0), a lease time and an alphabet of N+3 clients (hardware-address lengths 0..16, arbitrary-byte hostnames); DISCOVER/REQUEST datagrams go as wire bytes through HandleMsg4 into the plugin obtained from Plugin.Setup4 on a real sqlite file, with restarts on the same file (wider range / higher lease) at PRNG-chosen points; every reply is decided by a lease model (in range, injective, sticky, lease time, drop iff full). Concurrent bursts are checked with porcupine under -race. Non-trivial = history that served >= 2 clients and reached exhaustion or crossed a restart; distinct by (range, lease, seed)",
